@@ -138,7 +138,7 @@ PROPS = {
         "engine": "dsim",
         "level": "exploration",
         "technique": "deterministic simulation with fault injection (per-node eviction / restart / schema-change / id-change histories interleaved with concurrent executions; server-side frame history vs caller-side decoded rows)",
-        "rule": "each run = 1..4 unsharded nodes, metadata-id extension on/off, use_cached_result_metadata on/off, 1..6 concurrent callers x 2..8 operations (execute select, execute insert, batch of two DISTINCT prepared inserts, paged execute) on three shared prepared statements (1 in 4 runs: every execution goes through a CachingSession instead, with statement texts and its own cached handles), and 1..10 seeded chaos events: evict a statement from a node's cache, evict everything from a node's cache, schema change of the SELECT (result columns added in front or at the end => new result metadata id, rows re-encoded), node crash+restart (cache lost), statement id change (re-preparation yields another id). Non-trivial = at least one UNPREPARED answer or more than one schema version. Distinct = distinct (poll-sequence hash, event-log hash).",
+        "rule": "each run = 1..4 unsharded nodes, metadata-id extension on/off, use_cached_result_metadata on/off, 1..6 concurrent callers x 2..8 operations (execute select, execute insert, batch of two DISTINCT prepared inserts, paged execute of a 3-row result with page size 1 whose statement is - 1 in 3 - evicted right before the node handles the request for a further page) on three shared prepared statements (1 in 4 runs: every execution goes through a CachingSession instead, with statement texts and its own cached handles), and 1..10 seeded chaos events: evict a statement from a node's cache, evict everything from a node's cache, schema change of the SELECT (result columns added in front or at the end => new result metadata id, rows re-encoded), node crash+restart (cache lost), statement id change (re-preparation yields another id). Non-trivial = at least one UNPREPARED answer or more than one schema version. Distinct = distinct (poll-sequence hash, event-log hash).",
         "assumptions": COMMON_ASSUMPTIONS + [
             "oracles from the mock's frame history: (a) an UNPREPARED answer on a live connection is followed by a PREPARE of the same text on that connection and, if the id is unchanged, by an EXECUTE/BATCH equal to the original in id, value bytes, consistency, serial consistency, page size, paging state and timestamp; (b) if re-preparation returned another id no EXECUTE of that request follows; (b2) on a connection with the metadata-id extension the repeated EXECUTE presents the result metadata id its re-preparation announced or a later one, never an older one, unless an older announcement was still in flight (c14.reexecution_presents_older_metadata_id); (c) rows decoded by the caller (as CqlValue rows with column names) equal the mock's logical rows under the schema version the answer was encoded with, whenever that version was sent along or is unambiguously the one most recently announced (own preparation, or anything carrying a metadata id) with no concurrent announcement; (d) every presented result metadata id was announced by the mock, and after quiescence it is the latest; (e) runs with evictions only: no caller sees an error",
             "a PREPARED answer to an internal re-preparation without the metadata-id extension carries no id; the driver then keeps its cached metadata (CQL v4 cannot signal the change) - such answers are not counted as announcements (counter undetectable_schema_change_skipped)",
